@@ -71,7 +71,7 @@ func (i minfo) Mode() fs.FileMode {
 	switch i.n.kind {
 	case "dir":
 		return fs.ModeDir | 0755
-	case "link", "linkbig":
+	case "link", "linkbig", "linkdir":
 		return fs.ModeSymlink | 0777
 	case "special":
 		return fs.ModeNamedPipe | 0644
@@ -91,6 +91,9 @@ func followed(n *mnode) *mnode {
 	}
 	if n.kind == "linkbig" {
 		return &mnode{kind: "file", data: bigTarget}
+	}
+	if n.kind == "linkdir" {
+		return &mnode{kind: "dir"}
 	}
 	return n
 }
@@ -222,7 +225,7 @@ func (m *memFS) Open(name string) (fs.File, error) {
 }
 
 // slotOrder gives the base (ascending) order of siblings: the slot order of ScanWalk.tla.
-var slotPaths = []string{".gitignore", "a", "a/.gitignore", "a/f", "a/b", "a/b/.gitignore", "a/b/f", "a/b/g", "f", "b"}
+var slotPaths = []string{".gitignore", "a", "a/.gitignore", "a/f", "a/b", "a/b/.gitignore", "a/b/f", "a/b/g", "f", "b", "a/b/c", "a/b/c/f"}
 
 func slotIndex(p string) int {
 	for i, s := range slotPaths {
